@@ -534,6 +534,10 @@ def _kernels(ctx) -> None:
         for sit in ("repeat", "repeat-ending-underscore"):
             t_ = g
             for s_ in sans_:
+                # (a repeated name is a name: `base = _sanitize_user_name(n) if n is not None else None` collapses to the call)
+                for nm_ in s_[2]:
+                    t_ = _simplify(t_, {("cmp", "Is", nm_, ("const", "NoneType", None)): False,
+                                        ("cmp", "IsNot", nm_, ("const", "NoneType", None)): True, nm_: True})
                 t_ = _simplify(t_, {("call", ("attr", s_, "endswith"), (_const("_"),), ()): sit == "repeat-ending-underscore", s_: True})
                 t_ = _subst(t_, {s_: ("name", "SAN")})
             t_ = _simplify(_subst(t_, {("IDX",): ("name", "IDX")}), {})
